@@ -33,7 +33,8 @@ type SpecEnv struct {
 	label        string
 	tparams      map[*types.TypeParam]types.Type
 	logicalBound []*Term
-	capPre       map[string]*State // state in front of each captured call, keyed by "<name>_called"
+	capPre       map[string]*State
+	capSeq       map[string]int // state in front of each captured call, keyed by "<name>_called"
 	cfn          *ssa.Function     // callee closure whose clause is evaluated at a call site ...
 	cbind        []Val             // ... and the cells of its free variables
 }
@@ -93,6 +94,8 @@ func ensureIntrinsics(pkg *types.Package) {
 		sig := types.NewSignatureType(nil, nil, []*types.TypeParam{tp}, types.NewTuple(v("x", tp)), types.NewTuple(v("", boolT)), false)
 		sc.Insert(types.NewFunc(token.NoPos, pkg, "fresh", sig))
 	}
+	// precedes(a_called, b_called bool) bool: both captured calls ran, a before b
+	sc.Insert(types.NewFunc(token.NoPos, pkg, "precedes", types.NewSignatureType(nil, nil, nil, types.NewTuple(v("a", boolT), v("b", boolT)), types.NewTuple(v("", boolT)), false)))
 	// before[T](called bool, x T) T: x evaluated in the state right before the captured call
 	{
 		tp := mkTP("T")
@@ -719,6 +722,21 @@ func (e *SpecEnv) intrinsic(name string, n *ast.CallExpr, targs []types.Type) Va
 			e.fail("fresh() expects a pointer, slice or map")
 		}
 		return Or(Eq(ptr, Null()), P.mk("(_ is new)", "", SBool, []*Term{ptr}, nil))
+	case "precedes":
+		a, ok1 := n.Args[0].(*ast.Ident)
+		b, ok2 := n.Args[1].(*ast.Ident)
+		if !ok1 || !ok2 || !strings.HasSuffix(a.Name, "_called") || !strings.HasSuffix(b.Name, "_called") {
+			e.fail("precedes() expects two <capture>_called arguments")
+		}
+		sa, okA := e.capSeq[a.Name]
+		sb, okB := e.capSeq[b.Name]
+		both := And(e.eval(n.Args[0]).(*Term), e.eval(n.Args[1]).(*Term))
+		if !okA || !okB {
+			return False()
+		}
+		// symbolic execution records calls in program order inside an acyclic region (blocks are
+		// executed in topological order), so the static order decides
+		return And(both, BoolT(sa < sb))
 	case "before":
 		id, ok := n.Args[0].(*ast.Ident)
 		if !ok || !strings.HasSuffix(id.Name, "_called") {
